@@ -233,6 +233,8 @@ impl PersisterTask {
             };
             match written {
                 Ok(_) => {
+                    #[cfg(feature = "iggy_verif")]
+                    crate::verif::fs_event("append", file_path, bytes_written);
                     if fsync {
                         match file.sync_all().await {
                             Ok(_) => return Ok(bytes_written),
